@@ -87,6 +87,7 @@ func (R *Repository) AddCRL(crlLocations *core.CRLLocations, chains *core.Certif
 	verifhook.Hit("repo.add.locked", R, identifier)
 	lastUpdateSignatureVerifyFailed := entry.LastUpdateSignatureVerifyFailed
 	entry.entryLock.RUnlock()
+	verifhook.Hit("repo.add.unlocked", R, identifier, lastUpdateSignatureVerifyFailed)
 	if lastUpdateSignatureVerifyFailed {
 		//check if the chain contains a new valid signing cert
 		//(tryUpdateSignatureCertFromChain takes the entry lock itself and checks the flag again)
